@@ -114,11 +114,16 @@ VALIDATED = {
     'LinearRgb->Xyb': ('LinearRgb', 'value'), 'Xyb->LinearRgb': ('Xyb', 'value'),
     'LinearRgb->Hsl': ('LinearRgb', 'value'), 'Hsl->LinearRgb': ('Hsl', 'value'),
 }
+def _img_value(tyname, short):
+    def b(ctx, it, st, T, m, t, p, kw):
+        img, w, h = sym_image(ctx, it, st, tyname, short)
+        return [img]
+    return b
 CONVERSIONS.update({
-    'LinearRgb->Xyb': ('<xyb::Xyb as std::convert::From<linear_rgb::LinearRgb>>::from', None),
-    'Xyb->LinearRgb': ('<linear_rgb::LinearRgb as std::convert::From<xyb::Xyb>>::from', None),
-    'LinearRgb->Hsl': ('<hsl::Hsl as std::convert::From<linear_rgb::LinearRgb>>::from', None),
-    'Hsl->LinearRgb': ('<linear_rgb::LinearRgb as std::convert::From<hsl::Hsl>>::from', None),
+    'LinearRgb->Xyb': ('<xyb::Xyb as std::convert::From<linear_rgb::LinearRgb>>::from', _img_value('linear_rgb::LinearRgb', 'lrgb')),
+    'Xyb->LinearRgb': ('<linear_rgb::LinearRgb as std::convert::From<xyb::Xyb>>::from', _img_value('xyb::Xyb', 'xyb')),
+    'LinearRgb->Hsl': ('<hsl::Hsl as std::convert::From<linear_rgb::LinearRgb>>::from', _img_value('linear_rgb::LinearRgb', 'lrgb')),
+    'Hsl->LinearRgb': ('<linear_rgb::LinearRgb as std::convert::From<hsl::Hsl>>::from', _img_value('hsl::Hsl', 'hsl')),
 })
 TYNAME = {'Rgb': 'rgb::Rgb', 'LinearRgb': 'linear_rgb::LinearRgb', 'Xyb': 'xyb::Xyb', 'Hsl': 'hsl::Hsl'}
 
